@@ -8,6 +8,7 @@ import (
 	"fmt"
 	"github.com/ipfs/go-datastore"
 	"math/rand"
+	"sync"
 
 	"github.com/ipfs/go-cid"
 	"github.com/libp2p/go-libp2p/core/crypto"
@@ -168,7 +169,62 @@ func (v *vStore) openEnv(ctx context.Context, g *protocoltypes.Group, data []byt
 	if err != nil {
 		return openResult{err: err, stage: "payload", device: headers.DevicePk, counter: headers.Counter}
 	}
+	vRetain("OpenEnvelopePayload plaintext", msg.GetPlaintext())
 	return openResult{payload: msg.GetPlaintext(), device: headers.DevicePk, counter: headers.Counter}
+}
+
+// ---- retained outputs ------------------------------------------------------------------
+// Bytes the store hands to its caller (opened payloads, the clear text of a push payload) are "delivered": they must
+// not change afterwards, e.g. because the store decrypts the next message into the same buffer. The harness keeps the
+// returned slice itself next to a copy, and compares the two when the entry leaves a small ring and at the end of
+// the unit.
+type vRetainedEntry struct {
+	what string
+	live []byte
+	copy []byte
+}
+
+var (
+	vRetMu   sync.Mutex
+	vRetRing []vRetainedEntry
+	vRetBad  []string
+	vRetSeen int64
+)
+
+func vRetainCheckLocked(e vRetainedEntry) {
+	if !bytes.Equal(e.live, e.copy) && len(vRetBad) < 20 {
+		vRetBad = append(vRetBad, fmt.Sprintf("%s: returned %s, now %s", e.what, verifkit.Hex(e.copy), verifkit.Hex(e.live)))
+	}
+}
+
+func vRetain(what string, b []byte) {
+	if len(b) == 0 {
+		return
+	}
+	vRetMu.Lock()
+	defer vRetMu.Unlock()
+	vRetSeen++
+	if len(vRetRing) >= 6 {
+		vRetainCheckLocked(vRetRing[0])
+		vRetRing = vRetRing[1:]
+	}
+	vRetRing = append(vRetRing, vRetainedEntry{what: what, live: b, copy: append([]byte(nil), b...)})
+}
+
+// vRetainedCheck reports every retained output that changed after it was returned (call it deferred, before Finish).
+func vRetainedCheck(rep *verifkit.Report, prop string) {
+	vRetMu.Lock()
+	defer vRetMu.Unlock()
+	for _, e := range vRetRing {
+		vRetainCheckLocked(e)
+	}
+	vRetRing = nil
+	rep.Count("returned_buffers_watched", int(vRetSeen))
+	vRetSeen = 0
+	for _, b := range vRetBad {
+		rep.Violate(prop+"/delivered-bytes-changed-later", "bytes returned to the caller were overwritten by a later operation of the store", b)
+	}
+	vRetBad = nil
 }
 
 // groupKind names the three group types.
